@@ -293,11 +293,29 @@ def bounds(P, R):
     if al:
         a = al[0].ev['rhs']['args'][0]
         buf = al[0].ev['lhs']['name']
-        okal = a.get('k') == 'bin' and a['op'] == '+' and on_path(a['l'], 'st_size') and const_of(a['r']) == 1
-        term = [t for t in rf.stores() if t.ev['k'] == 'store' and t.ev['lhs'].get('k') == 'idx' and is_var(t.ev['lhs']['base'], buf) and on_path(t.ev['lhs']['index'], 'st_size') and const_of(t.ev.get('rhs')) == 0]
+        K = const_of(a['r']) if a.get('k') == 'bin' and a['op'] == '+' and on_path(a['l'], 'st_size') else None
+
+        def off(ix):
+            """index == st_size + j -> j"""
+            if on_path(ix, 'st_size') and ix.get('k') == 'mem':
+                return 0
+            if ix.get('k') == 'bin' and ix['op'] == '+' and on_path(ix['l'], 'st_size') and const_of(ix['r']) is not None:
+                return const_of(ix['r'])
+            return None
+        tail = {}
+        for t in rf.stores():
+            if t.ev['k'] == 'store' and t.ev['lhs'].get('k') == 'idx' and is_var(t.ev['lhs']['base'], buf):
+                j = off(t.ev['lhs']['index'])
+                if j is not None:
+                    tail[j] = t
         rets = [t for t in rf.sites() if t.ev['k'] == 'ret' and is_var(t.ev.get('val'), buf)]
-        ok = okal and bool(term) and bool(rets) and all(rf.path_avoiding(None, lambda t: t in term, target=r.bid, from_entry=True) is None or any(t in term for t in rf.block_sites(r.bid)[:r.idx]) for r in rets)
-    R.ob('C14.BND.1', ok, al[0] if al else rf, 'the file buffer has size+1 bytes and is NUL-terminated at size before it is returned', key='file-buffer')
+        ok = K is not None and K >= 1 and set(tail) == set(range(K)) and const_of(tail[K - 1].ev.get('rhs')) == 0 and bool(rets)
+        if ok:
+            for r in rets:
+                for t in tail.values():
+                    if not (rf.path_avoiding(None, lambda u, t=t: u.key == t.key, target=r.bid, from_entry=True) is None or any(u.key == t.key for u in rf.block_sites(r.bid)[:r.idx])):
+                        ok = False
+    R.ob('C14.BND.1', ok, al[0] if al else rf, 'the file buffer has size+K bytes, every byte after the file\'s contents is written and the last one is the NUL, before it is returned', key='file-buffer')
     rd = [s for s in rf.calls('fread')]
     R.ob('C14.BND.1', bool(rd) and on_path(rd[0].ev['args'][1], 'st_size') or (bool(rd) and on_path(rd[0].ev['args'][2], 'st_size')), rd[0] if rd else rf, 'at most size bytes are read into it', key='file-read', nontrivial=False)
     R.floor('C14.BND.1', 2)
